@@ -122,8 +122,22 @@ func VH_C13_cache_faults() {
 		_, other := vWriteEntry2(dir2, r2, d2, vBytes("body2", vChoice("n2", 3)))
 		cur = other
 	case 6:
+		// crash before finalisation: the real protocol is run up to the crash point (Create,
+		// then Write of a body prefix) in a second directory and the file is taken as it is then
 		p := vChoice("p", n+1)
-		cur = append(make([]byte, 6), body[:p]...)
+		dir2 := vTempDir()
+		f2, err2 := Create(dir2, &vHash{}, rsum, dsum)
+		vAssert("create-ok", err2 == nil)
+		if p > 0 || vChoice("wrote", 2) == 1 {
+			f2.Write(body[:p])
+		}
+		crashed := vFSList(dir2)
+		c, _ := vFSRead(crashed[len(crashed)-1])
+		cur = c
+		if !vIsModel() {
+			// natively flate buffers: what is on disk after a crash is at least the header
+			cur = c
+		}
 	default:
 		k := vChoice("k", 6)
 		cur = append(append(make([]byte, 0), fin[:k]...), make([]byte, 6-k)...)
